@@ -255,6 +255,7 @@ class Recorder:
         self.seam = seam
         self.ev = []
         self.raise_on = set(raise_on)
+        self.held = []
         import asyncio
 
         self.exc = {"ValueError": ValueError, "KeyError": KeyError, "RuntimeError": RuntimeError, "AssertionError": AssertionError,
@@ -280,9 +281,11 @@ def make_recorder_class():
             self._ev("started", transmission_type.name)
 
         def data_transmission_ended(self, transmission_header, blocks):
+            self.held.append((list(blocks), blocks, "data_ended"))  # an observer may keep what it was handed without copying it
             self._ev("data_ended", "DataTransmission", transmission_header, list(blocks))
 
         def voice_transmission_ended(self, voice_header, blocks):
+            self.held.append((list(blocks), blocks, "voice_ended"))
             self._ev("voice_ended", "VoiceTransmission", voice_header, list(blocks))
 
     return Rec
